@@ -550,20 +550,20 @@ impl GrpcClient {
             return Err(Error::AbciQuery(response.code, response.log));
         }
 
-        // If account doesn't exist yet, just return 0
-        if response.value.is_empty() {
-            return Ok(Coin::utia(0));
-        }
-
         // NOTE: don't put `ProofChain` directly in the AbciQueryResponse, because
         // it supports only small subset of proofs that are required for the balance
         // queries
         let proof: ProofChain = response.proof_ops.unwrap_or_default().try_into()?;
-        proof.verify_membership(
-            &header.header.app_hash,
-            [prefixed_account_key.as_slice(), b"bank"],
-            &response.value,
-        )?;
+        let keys = [prefixed_account_key.as_slice(), b"bank"];
+
+        // If account doesn't exist yet, the balance is 0, but only if the node proves
+        // that there is no such key in the bank state
+        if response.value.is_empty() {
+            proof.verify_non_membership(&header.header.app_hash, keys)?;
+            return Ok(Coin::utia(0));
+        }
+
+        proof.verify_membership(&header.header.app_hash, keys, &response.value)?;
 
         let amount = std::str::from_utf8(&response.value)
             .map_err(|_| Error::FailedToParseResponse)?
